@@ -752,7 +752,13 @@ def main():
                                               "exit": kat.returncode}
                 if kat.returncode != 0:
                     proof_problems.append("known answers (PyemvKat) no longer evaluate to the documented values: " + kat.stdout.strip()[-400:])
-                mods = sorted({"PyemvProps." + pid})
+                mods = sorted({"PyemvProps." + pid}
+                              | {"PyemvGen.Src." + e["module"] for e in src_index(pid) if not is_broken(e["theorem"], broken)}
+                              | {"PyemvGen.Mod." + n for n in MOD_FUNCS.get(pid, []) if ("ModRefines." + n) not in broken}
+                              | ({"PyemvGen.CvnRefines", "PyemvGen.CvnSource"} if pid in CVN_PIDS and "CvnRefines" not in broken and "CvnSource" not in broken else set())
+                              | {TLV_MODULE[TLV_HALF[n]] for n in TLV_FUNCS.get(pid, []) if ("TlvRefines." + n) not in broken}
+                              | {"PyemvGen.TlvSource" + part for part, ns in TLV_SRC.get(pid, {}).items()
+                                 if not any(("TlvSource." + n) in broken for n in ns)})
                 r = sh(["lake", "env", "leanchecker"] + mods, cwd=LEAN, timeout=3000)
                 ctx.extra["leanchecker"] = {"modules": mods, "exit": r.returncode, "tail": r.stdout.strip()[-200:]}
                 if r.returncode != 0:
